@@ -172,7 +172,13 @@ def check(prog: Program, tier: str) -> Result:
     _r20_2(prog, res)
     _r20_5(prog, res)
     _r20_3(prog, res, tf)
-    res.floors.update({"R20.1": 10, "R20.2": 1, "R20.3": 6, "R20.5": 3})
+    # mechanisms owned by other properties that the opt-out promises depend on
+    from . import c03 as _c03, c10 as _c10
+    res.adopt(_c10.check(prog, tier), {"R10.6"}, "R20.6",
+              "scheduled rewrites honour `# pyrefact: ignore` only because the scheduler refuses a transaction when ANY of its ranges touches an annotated line")
+    res.adopt(_c03.check(prog, tier), {"R3.2"}, "R20.7",
+              "a `# pyrefact: skip_file` file stays byte-identical only if the file entry points write nothing when the text is unchanged (text-mode reading normalises line ends)")
+    res.floors.update({"R20.1": 10, "R20.2": 1, "R20.3": 6, "R20.5": 3, "R20.6": 1, "R20.7": 2})
     return res
 
 
